@@ -111,6 +111,17 @@ def run(ctx):
         for alt in canon[:3]:
             for el in alt['expect'][:2]:
                 if nested:
+                    try:
+                        di = built.desc['sub']['cfg']['delimiter']
+                        perfect = []
+                        for x in el:                 # x: alternatives of one sub-list (validated answers of the inner SingleListGrader)
+                            inner_list = max(x, key=lambda d_: d_['grade_decimal'])['expect'][0]
+                            perfect.append(di.join(max(y, key=lambda d_: d_['grade_decimal'])['expect'][0] for y in inner_list))
+                    except Exception:
+                        continue
+                    subs.append(list(perfect))
+                    subs.append(perfect[:-1])                                  # a sub-list missing
+                    subs.append(perfect + [perfect[0]])                        # a surplus sub-list
                     continue
                 # item = tuple of item-answer dictionaries: submit the expected text of the best-paying one
                 perfect = [max(x, key=lambda d_: d_['grade_decimal'])['expect'][0] if isinstance(x, (list, tuple)) and x and isinstance(x[0], dict) else None for x in el]
@@ -157,6 +168,11 @@ def run(ctx):
                     blank = [j for j, it_ in enumerate(v) if any(x.strip() == '' for x in it_.split(icfg['delimiter']))]
                     lens = [len(el) for alt in canon for el in alt['expect']]
                     compared = [j for j in blank if (not cfg['ordered']) or any(j < n_ for n_ in lens)]
+                    # the answer-level message needs every expected AND every submitted sub-list to have earned credit: never with a missing / surplus sub-list
+                    if kind == 'out' and len(canon) == 1 and len(canon[0]['expect']) == 1 and canon[0]['msg'] and len(v) != len(canon[0]['expect'][0]):
+                        amsg_ = canon[0]['msg']
+                        if amsg_ in val['msg'].split('\n') or val['msg'].endswith(amsg_):
+                            ctx.violation('answer-level message shown although a sub-list is missing or surplus (%d submitted, %d expected)' % (len(v), len(canon[0]['expect'][0])), case, impl=GG.canon_result(val))
                     if icfg['missing_error'] and compared and not (kind == 'err' and val[1] == 'MissingInput'):
                         ctx.violation('a blank item inside sub-list %d with missing_error on the inner grader must raise MissingInput' % compared[0], case,
                                       impl=val if kind == 'err' else GG.canon_result(val))
